@@ -229,6 +229,8 @@ pub struct ObsModel<T> {
     pub out: Ghost<Seq<Ev<T>>>,
     pub sub: Ghost<bool>,
     pub quits: Ghost<bool>,
+    /// identities of the observables this observer has been handed to (`o.inner_subscribe(s)`), in order
+    pub subs: Ghost<Seq<int>>,
 }
 
 impl<T> ObsModel<T> {
